@@ -327,6 +327,8 @@ func (r *LayerManager) release(ctx context.Context, refspec reference.Spec, tocD
 		if !ok {
 			return 0, fmt.Errorf("layer of digest %q/%q is not registered (ref=%d)", refspec, tocDigest, i)
 		}
+		// The layer is dropped: forget that it has been resolved so that a later lookup resolves it again.
+		delete(r.resolveLayerCache[refspec.String()], l.Info().Digest.String())
 		l.Done()
 		delete(r.layer[refspec.String()], tocDigest.String())
 		if len(r.layer[refspec.String()]) == 0 {
